@@ -1153,7 +1153,7 @@ def _loop_sources(body, pars, consts, partial_names=(), records=None):
                 if isinstance(v, ast.Call) and ast.unparse(v.func) in partial_names and v.args and isinstance(v.args[0], ast.Name) \
                         and loads.get(tgt.id, 0) == 1 and not any(isinstance(a, ast.Starred) for a in v.args) \
                         and not any(kw.arg is None for kw in v.keywords) \
-                        and all(isinstance(n, (ast.Constant, ast.Name, ast.Attribute, ast.Call, ast.keyword, ast.Tuple, ast.Load))
+                        and all(isinstance(n, (ast.Constant, ast.Name, ast.Attribute, ast.Subscript, ast.Call, ast.keyword, ast.Tuple, ast.Load))
                                 for a in list(v.args) + [kw.value for kw in v.keywords] for n in ast.walk(a)) \
                         and all(fixed_before(n.id, here) for n in ast.walk(v) if isinstance(n, ast.Name)):
                     avail[tgt.id] = ("partial", v)
